@@ -1,0 +1,21 @@
+//go:build verif
+
+// Contracts for package planner (comment-only; read by /verif/bin/zv, never compiled into the product).
+package planner
+
+// C07: a relative ASOF/UNTIL is the database clock plus the offset; both bounds are then rounded UP to the source's
+// resolution grid (least grid point >= the requested instant); the *Changed flags say whether a non-zero bound
+// differs from the source's own.
+//@ func asOfUntilFor
+//@   let res = source.GetResolution()
+//@   let wantAsOf = query.AsOfOffset != 0 ? abs(now) + query.AsOfOffset : abs(query.AsOf)
+//@   let wantUntil = query.UntilOffset != 0 ? abs(now) + query.UntilOffset : abs(query.Until)
+//@   requires query != nil && source != nil && res > 0
+//@   modifies query.AsOf, query.Until
+//@   ensures asof_grid: emod(abs(query.AsOf), res) == 0 && abs(query.AsOf) >= wantAsOf && abs(query.AsOf) - wantAsOf < res
+//@   ensures until_grid: emod(abs(query.Until), res) == 0 && abs(query.Until) >= wantUntil && abs(query.Until) - wantUntil < res
+//@   ensures asof_result: (result1 ==> result0 == query.AsOf) && (!result1 ==> result0 == source.GetAsOf())
+//@   ensures until_result: (result3 ==> result2 == query.Until) && (!result3 ==> result2 == source.GetUntil())
+//@   ensures asof_changed: result1 == (abs(query.AsOf) != 0 && abs(query.AsOf) != abs(source.GetAsOf()))
+//@   ensures until_changed: result3 == (abs(query.Until) != 0 && abs(query.Until) != abs(source.GetUntil()))
+//@   nopanic
